@@ -33,13 +33,14 @@ TimingsA == <<
   [cyc |-> 3, del |-> 0, rep |-> 16777217, rev |-> FALSE], [cyc |-> 5, del |-> 2, rep |-> 33554431, rev |-> TRUE],
   \* cycles c with fl(c * fl(1/c)) < 1 in f32 (a quotient taken through a reciprocal misses the cycle boundary)
   [cyc |-> 41, del |-> 0, rep |-> 1, rev |-> FALSE], [cyc |-> 47, del |-> 2, rep |-> -2, rev |-> FALSE] >>
-EasesA == <<1, 2, 3, 11, 14, 19, 37>>      \* Lin, Sq, OutSq and some built-ins (ids = harness table)
+EasesA == <<1, 2, 3, 11, 14, 19, 37, 30>>  \* Lin, Sq, OutSq and some built-ins (ids = harness table; 30 = InExpo)
 
 \* distinct per insertion index and property; alternating sign so that scaled replays reach across zero
 Vals(i, p) == (IF (i % 2) = 0 THEN -1 ELSE 1) * ((8 * i) + (3 * p))
 AllPos == [i \in 1..(PD + 1) |-> i - 1]
 \* positions 0.5 and the next f32 above it, 0.25 and the one below, ... : distinct but closer than f32::EPSILON
-NearPos == <<0, 8388608, 8388609, 4194304, 4194303, 16777216, 16777215, 12582912>>
+\* ... and 1/2^24, 2/2^24: above 0% by no more than f32::EPSILON
+NearPos == <<0, 8388608, 8388609, 4194304, 4194303, 16777216, 16777215, 12582912, 1, 2>>
 
 Kf(n, pos, dc, ei) == [pos |-> pos,
                        d |-> [p \in Props |-> IF dc[p] = 1 THEN <<Vals(n, p)>> ELSE <<>>],
